@@ -376,12 +376,15 @@ pub unsafe extern "C" fn dsyevr_(
         }
         return;
     }
-    let orig = s.clone();
-    let (vals, vecs) = jacobi_eig(nn, &mut s);
-    *m = nn as c_int;
-    for i in 0..nn {
-        *w.add(i) = vals[i];
+    // like DSYEVR, scale the matrix to unit size first so that nothing overflows
+    let amax = s.iter().fold(0.0f64, |t, v| t.max(v.abs()));
+    let sc = if amax > 0.0 { amax } else { 1.0 };
+    for v in s.iter_mut() {
+        *v /= sc;
     }
+    let orig = s.clone();
+    let (mut vals, vecs) = jacobi_eig(nn, &mut s);
+    *m = nn as c_int;
     // self-check: || A v - lambda v || small
     let scale = orig.iter().fold(0.0f64, |t, v| t.max(v.abs()));
     for c in 0..nn {
@@ -391,10 +394,16 @@ pub unsafe extern "C" fn dsyevr_(
                 r += orig[i * nn + k] * vecs[k * nn + c];
             }
             r -= vals[c] * vecs[i * nn + c];
-            if r.abs() > 1e-9 * (scale + 1e-300) * (nn as f64) {
-                die("dsyevr residual");
+            if !(r.abs() <= 1e-9 * (scale + 1e-300) * (nn as f64)) {
+                die(&format!("dsyevr residual {:e} for scaled matrix {:?}", r, orig));
             }
         }
+    }
+    for v in vals.iter_mut() {
+        *v *= sc;
+    }
+    for i in 0..nn {
+        *w.add(i) = vals[i];
     }
     if ch(jobz) == b'V' {
         let ldz = *ldz as usize;
@@ -545,7 +554,10 @@ unsafe fn gesxx(
         }
         return;
     }
-    let (uu, ss, vv) = svd_econ(m, n, &av, lda);
+    let amax = av.iter().fold(0.0f64, |t, v| t.max(v.abs()));
+    let sc = if amax > 0.0 { amax } else { 1.0 };
+    let av: Vec<f64> = av.iter().map(|v| v / sc).collect();
+    let (uu, mut ss, vv) = svd_econ(m, n, &av, lda);
     // self-check: A = U S Vt
     let scale = av.iter().fold(0.0f64, |t, v| t.max(v.abs()));
     for i in 0..m {
@@ -554,10 +566,13 @@ unsafe fn gesxx(
             for c in 0..r {
                 x += uu[idx(i, c, m)] * ss[c] * vv[idx(c, j, r)];
             }
-            if (x - av[idx(i, j, lda)]).abs() > 1e-9 * (scale + 1e-300) * (m + n) as f64 {
+            if !((x - av[idx(i, j, lda)]).abs() <= 1e-9 * (scale + 1e-300) * (m + n) as f64) {
                 die("gesdd/gesvd reconstruction");
             }
         }
+    }
+    for v in ss.iter_mut() {
+        *v *= sc;
     }
     for c in 0..r {
         *s.add(c) = ss[c];
